@@ -14,12 +14,12 @@ fn s(x: &str) -> Option<String> { Some(x.to_string()) }
 fn main() {
   std::panic::set_hook(Box::new(|_| {}));
   w("jwk_rsa_each_private_member_alone", || {
-    let base = JwkParamsRsa { n: "n".into(), e: "e".into(), ..JwkParamsRsa::new() };
+    let mut base = JwkParamsRsa::new(); base.n = "n".into(); base.e = "e".into();
+    let mk = |f: &dyn Fn(&mut JwkParamsRsa)| { let mut p = base.clone(); f(&mut p); p };
     let variants: Vec<(&str, JwkParamsRsa)> = vec![
-      ("d", JwkParamsRsa { d: s("x"), ..base.clone() }), ("p", JwkParamsRsa { p: s("x"), ..base.clone() }),
-      ("q", JwkParamsRsa { q: s("x"), ..base.clone() }), ("dp", JwkParamsRsa { dp: s("x"), ..base.clone() }),
-      ("dq", JwkParamsRsa { dq: s("x"), ..base.clone() }), ("qi", JwkParamsRsa { qi: s("x"), ..base.clone() }),
-      ("oth", JwkParamsRsa { oth: Some(vec![JwkParamsRsaPrime { r: "r".into(), d: "d".into(), t: "t".into() }]), ..base.clone() }),
+      ("d", mk(&|p| p.d = s("x"))), ("p", mk(&|p| p.p = s("x"))), ("q", mk(&|p| p.q = s("x"))), ("dp", mk(&|p| p.dp = s("x"))),
+      ("dq", mk(&|p| p.dq = s("x"))), ("qi", mk(&|p| p.qi = s("x"))),
+      ("oth", mk(&|p| p.oth = Some(vec![JwkParamsRsaPrime { r: "r".into(), d: "d".into(), t: "t".into() }]))),
     ];
     for (name, p) in variants {
       if p.is_public() { return Err(format!("RSA params with private member `{name}` report is_public()")); }
